@@ -221,6 +221,15 @@ func (ex *Exec) solveOne(o *Obligation, dir string, id string, timeoutS int, tho
 	if final == "" {
 		// no back end answered as hoped: summarise
 		final = "unknown"
+		allErr := true
+		for _, s := range stats {
+			if s != "error" {
+				allErr = false
+			}
+		}
+		if allErr {
+			final = "error"
+		}
 		for _, s := range stats {
 			if s == "sat" {
 				final = "sat"
